@@ -80,7 +80,11 @@ func c04Graph(c *c04Case) (*gen.Graph, []string) {
 		// the data objects the conditions read are written by a task in front of the gateway (DoWithObjects)
 		t0 := g.Add(gen.Task, "T0", "")
 		for i := 0; i < c.K; i++ {
-			t0.Outputs = append(t0.Outputs, fmt.Sprintf("c%d", i))
+			if c.decoys() {
+				t0.Outputs = append(t0.Outputs, fmt.Sprintf("c%d=DataObject_c%d", i, i))
+			} else {
+				t0.Outputs = append(t0.Outputs, fmt.Sprintf("c%d", i))
+			}
 		}
 		g.Connect(s, t0, nil)
 		// an embedded sub-process somewhere in the process (its scope gets a data locator of its own), passed by
@@ -132,7 +136,12 @@ func c04Graph(c *c04Case) (*gen.Graph, []string) {
 			} else {
 				g.Connect(x, b, &gen.Cond{Kind: kind, Var: fmt.Sprintf("c%d", ci), Op: ">", Val: 0, Lang: own(ci)})
 			}
-			if c.Source == "obj" || c.Source == "objtask" {
+			if c.decoys() {
+				// the data object's id differs from its name, and ANOTHER data object has that name as its id
+				// (ids are unique, names are what conditions and data outputs go by)
+				g.Objects = append(g.Objects, gen.DataObject{ID: fmt.Sprintf("DataObject_c%d", ci), Name: fmt.Sprintf("c%d", ci)},
+					gen.DataObject{ID: fmt.Sprintf("c%d", ci), Name: fmt.Sprintf("decoy_c%d", ci), Body: `{"w": 0}`})
+			} else if c.Source == "obj" || c.Source == "objtask" {
 				g.Objects = append(g.Objects, gen.DataObject{ID: fmt.Sprintf("c%d", ci), Name: fmt.Sprintf("c%d", ci)})
 			}
 			ci++
@@ -141,6 +150,10 @@ func c04Graph(c *c04Case) (*gen.Graph, []string) {
 	}
 	return g, branches
 }
+
+// decoys: every other objtask case declares its data objects with an id of their own and adds, for each, a second
+// data object whose ID is the first one's NAME
+func (c *c04Case) decoys() bool { return c.Source == "objtask" && (c.Truth+c.K)%2 == 0 }
 
 func c04Cases(tier string, seed uint64) []fw.Case {
 	var cs []fw.Case
@@ -591,7 +604,7 @@ func init() {
 			v.Nontrivial = true
 			return v
 		},
-		Rule:       "exhaustive grid: k in 1..4 conditional flows x default absent / at each list position x all 2^k truth assignments x 1..3 tokens arriving together x {expr over variables, expr over data objects, XPath over variables} (1896 cells) with the closed-form oracle 'first true in list order, else default, else error trace + no flow', one flow trace per token; storm variants perturb the probe/report hand-shake of concurrent tokens; funnel shapes (4 / 8 tokens merged into one incoming flow); definitions with the sequence flows in reverse document order; conditions that cannot be evaluated (every non-empty subset of k = 2..3 conditions: an error trace each per token, the alternative counts as not true); two gateways in a row evaluated by one token with a variable that changes its kind in between (integer to string / boolean / float / object / array); every cell is non-trivial (a condition or the default decides); distinct = descriptor hash",
+		Rule:       "exhaustive grid: k in 1..4 conditional flows x default absent / at each list position x all 2^k truth assignments x 1..3 tokens arriving together x {expr over variables, expr over data objects, XPath over variables} (1896 cells) with the closed-form oracle 'first true in list order, else default, else error trace + no flow', one flow trace per token; storm variants perturb the probe/report hand-shake of concurrent tokens; funnel shapes (4 / 8 tokens merged into one incoming flow); definitions with the sequence flows in reverse document order; conditions that cannot be evaluated (every non-empty subset of k = 2..3 conditions: an error trace each per token, the alternative counts as not true); two gateways in a row evaluated by one token with a variable that changes its kind in between (integer to string / boolean / float / object / array); every cell is non-trivial (a condition or the default decides); distinct = descriptor hash; every other objtask case declares its data objects with ids of their own plus decoy objects whose ids are the names the conditions use",
 		Exhaustive: func(string) bool { return true },
 		Assumptions: []string{"XPath conditions address variables as //<name> (the engine serialises the variable map with anyxml, whose root element depends on the number of variables)", "data-object conditions are exercised in expr only (the XPath engine exposes no usable data-object function name)"},
 	})
